@@ -328,3 +328,49 @@ def check_property_contract():
                                   'methods': {('.values', 'pyval'): m_values}},
                     assumptions=['A: ==, <, <=, in on property values are the Python operators of the operand types (uninterpreted relations; > and >= are their converses)'],
                     note='all eight operators')
+
+
+# ------------------------------------------------------------------ FilterSet.add: the abstract view of a FilterSet is the SET of its filters (a query is their conjunction)
+FS_ELEM = z3.Function('filters.item', z3.IntSort(), E.S); FS_N = z3.Int('n_filters')
+
+
+def filterset_add_contract(variant):
+    """variant 'list': `filters` is a list / FilterSet of filters (abstracted to their identities, strings); 'single': one Filter; 'none': nothing.
+    View after the call == view before, plus exactly the filters handed in -- stated over the whole view, so nothing already attached is lost or replaced."""
+    from vf.pyvc.lib import rebinding
+    view0 = z3.Const('self._filters.view', E.SetS)
+    self_ = E.Rec(_filters=E.SetV(view0))
+    one = z3.String('filter')
+    if variant == 'list': filters = E.Seq(lambda i: Str(FS_ELEM(i)), FS_N)
+    elif variant == 'single': filters = Str(one)
+    else: filters = NONE
+
+    def m_append(x, recv, args, p):
+        u = z3.FreshConst(E.S, 'u')
+        if recv.sort == 'litlist':        # a list literal assigned in the body: its view is the set of its (identity-valued) elements
+            if any(i.sort != 'str' for i in recv.x): raise Unsupported('list literal with non-filter elements')
+            base = z3.Lambda([u], z3.Or(*[u == i.t for i in recv.x])) if recv.x else E.EMPTY
+        else: base = recv.t
+        return E.SetV(z3.Lambda([u], z3.Or(base[u], u == args[0].t)))
+
+    def h_isinst(x, v, p, site):
+        yield p, Bool(variant == 'list' and v.sort == 'seq')
+
+    def inv(x, env, i, it):
+        s = z3.String('s!fs'); u = z3.Int('u!fs')
+        return z3.ForAll([s], env['self'].x['_filters'].t[s] == z3.Or(view0[s], z3.Exists([u], z3.And(0 <= u, u < i, it.t[0](u).t == s))))
+
+    def outcomes(x, outs, add):
+        s = z3.String('s!post'); u = z3.Int('u!post')
+        for i, (kind, p, v) in enumerate(outs):
+            if kind != 'return': continue
+            now = p.env['self'].x['_filters'].t
+            if variant == 'list': given = z3.Exists([u], z3.And(0 <= u, u < FS_N, FS_ELEM(u) == s))
+            elif variant == 'single': given = z3.And(s == one, z3.Length(one) > 0)
+            else: given = z3.BoolVal(False)
+            add(f'view after add == view before | the filters handed in (nothing attached before is lost) @path{i}', p.pc, z3.ForAll([s], now[s] == z3.Or(view0[s], given)), p.exact)
+    return Contract('stix2/datastore/filters.py::FilterSet.add', props=['C12', 'C18', 'C13'], params={'self': self_, 'filters': filters}, note=f'argument: {variant}',
+                    requires=[('length', lambda a: FS_N >= 0)] + ([('a Filter object is truthy (modelled by a non-empty identity)', lambda a: z3.Length(one) > 0)] if variant == 'single' else []),
+                    raises={}, handlers={'isinstance:(FilterSet, list)': h_isinst}, loops={0: {'kind': 'inv', 'inv': inv}},
+                    registry_ext={'methods': {('.append', 'set'): rebinding(m_append), ('.append', 'litlist'): rebinding(m_append)}}, on_outcomes=outcomes,
+                    assumptions=['a Filter is abstracted to its identity; `f not in list` / `list.append(f)` are membership / insertion on the set of identities (equality of Filters is value equality of named tuples)'])
